@@ -83,7 +83,7 @@ contract(ENG, props=['C03'], name='assumed:assemble_bytecode', assumed=True,
          reason='used only as the callee of the CLI entry point; its kernels are verified as blocks',
          may_raise={'SystemExit': 'True', 'ValueError': 'True'}, modifies=[], no_frame_check=True)
 
-contract('bespokeasm.__main__:compile', props=['C03'],
+contract('bespokeasm.__main__:compile', props=['C03', 'C14'],
          params={'asm_file': 'str', 'config_file': 'str', 'binary': 'bool', 'output_file': 'str?',
                  'binary_min_address': 'int', 'binary_max_address': 'int', 'binary_fill': 'int', 'pretty_print': 'bool',
                  'pretty_print_format': 'str', 'pretty_print_output': 'str', 'verbose': 'int',
